@@ -21,8 +21,7 @@ from mc.core import Acc
 from mc.seams import owned_random, key_der
 from mc.ref import tlv_strict as ts
 from mc.ref import ndn_strict as ns
-from mc.ndnenv import Counter32
-import ndn.utils as ndn_utils
+from mc.ndnenv import owned_env, FixedClock
 
 PROPERTY = 'C01'
 
@@ -444,8 +443,8 @@ def unit(arg):
     acc = Acc()
     acc.state_hashes = None
     gen = itertools.islice(SPACES[arg['space']](arg['tier']), arg['lo'], arg['hi'])
-    old = ndn_utils.randint
-    ndn_utils.randint = Counter32(1).randint
+    env = owned_env(clock=FixedClock(), seed=1)
+    env.__enter__()
     try:
         for case in gen:
             key, viol, nontrivial, info = run_case(case)
@@ -464,15 +463,11 @@ def unit(arg):
             if acc.evaluations % 1500 == 1:
                 acc.sample({'case': case, 'outcome': key, 'info': info})
     finally:
-        ndn_utils.randint = old
+        env.__exit__(None, None, None)
     return acc
 
 
 def replay(case):
-    old = ndn_utils.randint
-    ndn_utils.randint = Counter32(1).randint
-    try:
+    with owned_env(clock=FixedClock(), seed=1):
         key, viol, _, _ = run_case(case)
-    finally:
-        ndn_utils.randint = old
     return [{'sig': s, 'what': w} for s, w in viol]
